@@ -276,6 +276,8 @@ def run(chk, prog):
     r = [x for x in s.returns]
     chk.check(any("origin" in A.show(x[0]) or "data" in A.show(x[0]) for x in r), "R4", wp.where,
               "wakePotential() returns the start of the contiguous [B][N] array", "wakePotential:return")
+    # ---- R6: the source-map table is rebuilt whenever the displacement field changes (a stale table moves the grid by old offsets) ----
+    K.offset_table_sync(chk, prog, "R6")
     chk.notes.append("C08: every table/grid index in the transport code decomposes into (bunch n) + (in-bunch) parts that agree between "
                      "writer and reader; fill extents agree with _lastbunch. Exhaustive over the index sites of KickMap, its subclasses, "
                      "FokkerPlanckMap::apply, Identity, WakePotentialMap::update.")
